@@ -99,6 +99,8 @@
 
 // Teaching agent (Claude-powered onboarding)
 pub mod agent;
+#[cfg(inputlayer_verif)]
+pub mod verif_hooks; // scheduling points for the external verification harness
 
 // AST and IR modules (consolidated from crates/)
 pub mod ast;
